@@ -126,10 +126,18 @@ func c13Run(ctx *run.Ctx, id run.CaseID) {
 		for _, ct := range clipTypes {
 			tag := ctName(ct) + "/" + frName(fr)
 			var sol, baseSol Paths
-			if !ctx.Guard(digest, tag, in, func() {
+			panicked := false
+			func() {
+				defer func() {
+					if x := recover(); x != nil {
+						panicked = true
+						fail("panic/"+tag, fmt.Sprintf("BooleanOpPaths64 on the transformed input panicked: %v", x))
+					}
+				}()
 				sol = clip.BooleanOpPaths64(ct, tS, tC, fr)
 				baseSol = clip.BooleanOpPaths64(ct, subj, clp, fr)
-			}) {
+			}()
+			if panicked {
 				continue
 			}
 			ctx.Eval(2)
@@ -156,6 +164,9 @@ func c13Run(ctx *run.Ctx, id run.CaseID) {
 				w, on := oracle.Winding(sol, T(p))
 				compared++
 				if (w != 0 || on) != want {
+					if class == "" {
+						class = discardClassPoint(tS, tC, ct, fr, T(p))
+					}
 					fail("region/"+tag, fmt.Sprintf("at image %s of base point %s: expected inside=%v, solution winding=%d; solution=%v", fmtPt(T(p)), fmtPt(p), want, w, sol))
 					break
 				}
@@ -258,7 +269,7 @@ func c13Run(ctx *run.Ctx, id run.CaseID) {
 						w1, _ := oracle.Winding(o1, T(p))
 						compared++
 						if (w0 != 0) != (w1 != 0) {
-							if (jt == clip.Square || jt == clip.Miter) && max(tx, -tx, ty, -ty) >= int64(1)<<50 {
+							if m := max(tx, -tx, ty, -ty); m >= int64(1)<<50 || ((jt == clip.Square || jt == clip.Miter) && m >= int64(1)<<44) {
 								class = "offset-float-cancellation-at-2^50"
 							}
 							fail("InflatePaths64/"+jtName(jt), fmt.Sprintf("offset by %v: region differs at image of %s (winding %d vs %d); base result=%v translated-input result=%v", d, fmtPt(p), w0, w1, o0, o1))
